@@ -1116,7 +1116,15 @@ fn calc_compu_method_limits(
                         //   x = (fy - c) / b
                         // this is rewritten to, to fix the edge case where f is f64::MAX, y > 1, but y/b < 1
                         //   x = (f * (y/b)) - c/b
-                        let func = |y: f64| (c.f * (y / c.b) - (c.c / c.b));
+                        // if |b| < 1 then y/b can overflow even though the result is finite (e.g. FLOAT64_IEEE
+                        // with a small f), so in that case the multiplication is done first
+                        let func = |y: f64| {
+                            if c.b.abs() >= 1.0 {
+                                c.f * (y / c.b) - (c.c / c.b)
+                            } else {
+                                (c.f * y) / c.b - (c.c / c.b)
+                            }
+                        };
                         lower_limit = func(lower_limit);
                         upper_limit = func(upper_limit);
                         if lower_limit > upper_limit {
